@@ -112,8 +112,9 @@ def check_chunk(args):
                     elif form == "command":
                         ent["command"] = shlex.join(full)
                     else:
-                        # the other POSIX-shell spelling: backslash escapes instead of quotes
-                        ent["command"] = " ".join(re.sub(r"([^A-Za-z0-9_@%+=:,./-])", r"\\\1", a) if a else "''" for a in full)
+                        # the other POSIX-shell spelling: backslash escapes instead of quotes ('#' is escaped only where it
+                        # would start a comment, i.e. at the beginning of a word)
+                        ent["command"] = " ".join(re.sub(r"([^A-Za-z0-9_@%+=:,./#-]|^#)", r"\\\1", a) if a else "''" for a in full)
                     dbp = os.path.join(d, "cc.json")
                     with open(dbp, "w") as f:
                         json.dump([ent], f)
